@@ -1080,3 +1080,37 @@ Definition rtf_r_row_gen (tight : bool) (sep : str) (cells : list str) : str :=
   s "\trowd" ++ concat (map (rtf_r_cell_gen tight) cells) ++ s "\row" ++ sep.
 Definition rtf_r_doc_gen (tight : bool) (sep : str) (g : list (list str)) : str :=
   s "{\rtf1\ansi " ++ concat (map (rtf_r_row_gen tight sep) g) ++ s "}".
+
+(* ------------------------------------------------------------------ order of the tables of a slide
+   odp _extract_slide / pptx _extract_slide: the frames (shapes) of a slide are sorted by their
+   (top, left) position with Python's stable sort and key=(y, x); the tables are then collected in
+   that order, empty tables skipped.  Positions enter as order-preserving ranks (the parsing of
+   svg:y / svg:x / a:off and the float comparison are oracles). *)
+Definition poskey := (nat * nat)%type.
+Definition poskey_leb (a b : poskey) : bool :=
+  Nat.ltb (fst a) (fst b) || (Nat.eqb (fst a) (fst b) && Nat.leb (snd a) (snd b)).
+
+Fixpoint insert_by {A} (k : A -> poskey) (x : A) (l : list A) : list A :=
+  match l with
+  | [] => [x]
+  | y :: r => if poskey_leb (k x) (k y) then x :: y :: r else y :: insert_by k x r
+  end.
+(* sorted(l, key=k): stable *)
+Fixpoint stable_sort_by {A} (k : A -> poskey) (l : list A) : list A :=
+  match l with [] => [] | x :: r => insert_by k x (stable_sort_by k r) end.
+
+(* a frame: its position key and the table it holds, if any *)
+Definition frame := (poskey * option (list (list str)))%type.
+Definition frame_tables (f : frame) : list (list (list str)) :=
+  match snd f with Some t => if is_nil t then [] else [t] | None => [] end.
+Definition slide_tables (frames : list frame) : list (list (list str)) :=
+  flat_map frame_tables (stable_sort_by fst frames).
+Definition deck_tables (slides : list (list frame)) : list (list (list str)) := flat_map slide_tables slides.
+(* the tables of a deck in source (document) order *)
+Definition deck_source_tables (slides : list (list frame)) : list (list (list str)) :=
+  flat_map (flat_map frame_tables) slides.
+Fixpoint keys_sorted (l : list poskey) : bool :=
+  match l with
+  | a :: r => match r with b :: _ => poskey_leb a b && keys_sorted r | [] => true end
+  | [] => true
+  end.
